@@ -783,8 +783,6 @@ def decorate_with_checker(func: CallableT) -> CallableT:
     # Determine the default argument values
     kwdefaults = resolve_kwdefaults(sign=sign)
 
-    id_func = id(func)
-
     # (mristin, 2021-02-16)
     # Admittedly, this branching on sync/async is absolutely monstrous.
     # However, I couldn't find out an easier way to refactor the code so that it supports async.
@@ -956,6 +954,11 @@ def decorate_with_checker(func: CallableT) -> CallableT:
                     _discard_in_progress(id_func)
 
             return result
+
+    # The checking in progress is marked with the identifier of the checker (and not the one of the function)
+    # so that neither two checkers wrapped around the same function nor a checker wrapped around a callable instance
+    # of a class with invariants share the mark.
+    id_func = id(wrapper)
 
     # Copy __doc__ and other properties so that doctests can run
     functools.update_wrapper(wrapper=wrapper, wrapped=func)
